@@ -189,13 +189,13 @@ MUT_OPS = [[1, 5], [1, 0], [1, 24], [2, 3], [2, 0], [3, 4], [3, 0], [4, 6], [4, 
 
 def shapes_cases(rng, tier):
     cases = []
-    for which, ops, kinds in ((0, REF_OPS, (0, 1, 2, 3)), (1, MUT_OPS, (0, 1, 3))):
+    for which, ops, kinds in ((0, REF_OPS, (0, 1, 2, 3, 4, 5)), (1, MUT_OPS, (0, 1, 3))):
         for kind in kinds:
             cases.append("101 %d %d | %s" % (which, kind, " ; ".join(" ".join(map(str, o)) for o in ops)))
     n = 60 if tier == "quick" else 1500
     for _ in range(n):
         which = rng.below(2)
-        kinds = (0, 1, 2, 3) if which == 0 else (0, 1, 3)
+        kinds = (0, 1, 2, 3, 4, 5) if which == 0 else (0, 1, 3)
         base = REF_OPS if which == 0 else MUT_OPS
         ops = []
         for _ in range(rng.range(1, 30)):
